@@ -8,6 +8,9 @@ pub mod compiler;
 mod constants;
 pub mod source;
 pub mod vm;
+
+#[cfg(feature = "verif")]
+pub mod verif;
 use codespan_reporting::diagnostic::Diagnostic;
 use source::VmFileId;
 
